@@ -186,6 +186,10 @@ class PathCtx:
         ob = Obligation(kind, label, list(self.pc), goal, info or {}, list(self.decisions), self.cur_line)
         ob.inputs = getattr(self, "inputs", None)
         self.obligations.append(ob)
+        import os as _os
+        if _os.environ.get("PYVC_DEBUG_OB") and _os.environ["PYVC_DEBUG_OB"] in label:
+            import sys as _sys
+            print(f"[debug-ob] {kind} {label} decisions={self.decisions}\n   goal={goal}\n   pc={self.pc}", file=_sys.stderr)
 
 
 class Explorer:
